@@ -80,6 +80,8 @@ def props_of(d):
         P.add("C13")          # physically removed and reported when maintenance runs after the deadline
     if f.startswith("ev.") and op in ("SetMaximum",):
         P.add("C04")
+    if f.startswith("sweep"):
+        P.add("C05")          # an entry that expired long ago is still tracked (counted by EstimatedSize, not yielded by iteration) after maintenance
     if f.startswith("saveload"):
         P.add("C19")
     if f.startswith("st."):
@@ -93,7 +95,7 @@ PLAN = {
             ["Cfg_plain", "Cfg_writing", "Cfg_count", "Cfg_weightAll"]),
     "C03": (["expiry"], ["Cfg_creating", "Cfg_writing", "Cfg_accessing", "Cfg_custom", "Cfg_countExp"]),
     "C04": (["size", "size", "size", "mix"], ["Cfg_count", "Cfg_weight", "Cfg_weightAll"]),
-    "C05": (["size", "mix", "expiry"], ["Cfg_count", "Cfg_weightAll"]),
+    "C05": (["size", "mix", "expiry", "sweep"], ["Cfg_count", "Cfg_weightAll"]),
     "C06": (["expiry", "mix", "size", "load", "sweep"], ["Cfg_writing", "Cfg_countExp", "Cfg_weightAll"]),
     "C07": (["size", "size", "sweep", "mix", "deadline"], ["Cfg_count", "Cfg_countExp", "Cfg_weight", "Cfg_weightAll"]),
     "C08": (["load", "load"], ["Cfg_plain", "Cfg_refresh"]),
